@@ -180,6 +180,23 @@ pub fn discovered_writer_of(
   d
 }
 
+/// a writer of another participant (`announce`), on a topic for which it carries the same
+/// EndpointSecurityInfo as `party`'s writer `attrs_of` (entity ids are unique per participant only)
+#[cfg(feature = "security")]
+pub fn discovered_writer_as(
+  party: &crate::verif::secnode::SecParty,
+  attrs_of: GuidBytes,
+  announce: GuidBytes,
+  topic: &str,
+  type_name: &str,
+  qos: &QosPolicies,
+  unicast: &[SocketAddr],
+) -> DiscoveredWriterData {
+  let mut d = discovered_writer(announce, topic, type_name, qos, unicast, &[]);
+  d.publication_topic_data.security_info = party.writer_security_info(GUID::from_bytes(attrs_of), topic);
+  d
+}
+
 #[cfg(feature = "security")]
 pub fn discovered_reader_of(
   party: &crate::verif::secnode::SecParty,
